@@ -46,6 +46,8 @@ def c_obs(I, o):
 
 
 def c_case(case, res):
+    if 'scope' in case:
+        return '([], [])'
     I = R.Interner()
     doc = R.c_doc(case['spec'], case['uids'], I)
     return '(%s, %s)' % (doc, R.c_list([c_obs(I, o) for o in res['obs']]))
@@ -186,6 +188,15 @@ def build_cases(ctx):
     for perm in itertools.permutations(range(4)):
         cases.append(make_case(R.with_scene_node_order(fx['sc4'], perm), [None], True, family='scenenodeperm:sc4'))
     stats['scenenodeperm:sc4'] = 24
+    # scoped references re-pointed at a name defined only in ANOTHER scope (effect sids, geometry and
+    # controller sources, top-level nodes of another scene): dangling, never bound across scopes
+    from harness.gen import c08docs, faults as F
+    stats['scope-crossing'] = 0
+    for name, text in sorted(c08docs.base_documents().items()):
+        for f in F.crossref_sites(F.parse(text)):
+            cases.append({'scope': {'base': text, 'fault': f}, 'family': 'scope:' + name, 'clean': False, 'masks': [],
+                          'spec': {'top': []}, 'uids': {}, 'scope_name': name})
+            stats['scope-crossing'] += 1
     return cases, stats
 
 
@@ -202,7 +213,8 @@ def run_impl_cases(cases, chunk=80):
     chunks = [cases[i:i + chunk] for i in range(0, len(cases), chunk)]
 
     def payload(cs):
-        return {'cases': [{'xml': c['xml'], 'masks': c['masks'], 'renames': c.get('renames')} for c in cs]}
+        return {'cases': [{'scope': c['scope']} if 'scope' in c else
+                          {'xml': c['xml'], 'masks': c['masks'], 'renames': c.get('renames')} for c in cs]}
 
     def one(ch):
         return core.run_cases_bisect('c07', ch, payload, crashed, timeout=240)
@@ -235,7 +247,7 @@ def has_certain_dangling(spec):
 def oracle(case, res):
     """clauses evaluated on the implementation's observations against the spec (not the model)"""
     fails = list(res.get('fails', []))
-    if not res.get('obs'):
+    if not res.get('obs') or 'scope' in case:
         return fails
     spec, uids = case['spec'], case['uids']
 
@@ -292,7 +304,8 @@ def run(ctx):
             if f['signature'] not in seen_sig:
                 seen_sig.add(f['signature'])
                 g = dict(f)
-                g['input'] = {'spec': c['spec'], 'masks': c['masks'], 'clean': c['clean'], 'renames': c.get('renames')}
+                g['input'] = ({'scope_base': c['scope_name'], 'fault': c['scope']['fault']} if 'scope' in c else
+                              {'spec': c['spec'], 'masks': c['masks'], 'clean': c['clean'], 'renames': c.get('renames')})
                 failures.append(g)
     terms = [c_case(c, r) for c, r in zip(cases, results)]
     ctx.log('evaluating the model on the same graphs inside Coq')
@@ -312,6 +325,8 @@ def run(ctx):
         nrefs = sum(1 for t in c['spec']['top'] if t['kind'] in ('nodes', 'scenes'))
         if nrefs:
             seen.add(core.canon_hash(c['spec']))
+        elif 'scope' in c:
+            seen.add(core.canon_hash([c['scope_name'], c['scope']['fault']]))
         if c['clean']:
             dist['clean'] += 1
         elif r.get('obs') and any(o['errs'] for o in r['obs']):
@@ -369,7 +384,12 @@ def replay(ctx, body):
     if inp is None:
         print('replay: no input recorded (proof or build problem): %s' % json.dumps(body.get('no_longer_checks'))[:500])
         return run(ctx)
-    case = make_case(inp['spec'], inp['masks'], inp.get('clean', False), inp.get('renames'))
+    if 'scope_base' in inp:
+        from harness.gen import c08docs
+        case = {'scope': {'base': c08docs.base_documents()[inp['scope_base']], 'fault': inp['fault']}, 'family': 'scope',
+                'clean': False, 'masks': [], 'spec': {'top': []}, 'uids': {}, 'scope_name': inp['scope_base']}
+    else:
+        case = make_case(inp['spec'], inp['masks'], inp.get('clean', False), inp.get('renames'))
     r = run_impl_cases([case])[0]
     fs = oracle(case, r)
     known = {k['signature'] for k in core.load_known() if k.get('property') == 'C07'}
